@@ -1,7 +1,7 @@
 """Generator of .osu (v14, mania) texts, class-based."""
 from __future__ import annotations
 
-TEXTS = ["Caravan", "夜に駆ける", "Ünïcode", "a b c", "x_y-z", "", "2nd", "A, B & C", "élan vital", "Title (TV Size)"]
+TEXTS = ["Line\u2028Sep", "NEL\x85here", "Form\x0cfeed", "Unit\x1fsep", "Caravan", "夜に駆ける", "Ünïcode", "a b c", "x_y-z", "", "2nd", "A, B & C", "élan vital", "Title (TV Size)"]
 COLON_TEXTS = ["Re:Title", "a:b:c", "Re: Zero", "12:30"]
 FILES = ["hit.wav", "clap.ogg", "snare 2.wav", "kick.wav", "a-b_c.wav"]
 
